@@ -15,20 +15,20 @@ import (
 
 // Obligation: Hyps /\ not Goal must be unsat.
 type Obligation struct {
-	Name    string // stable name: pkg.func#kind:label
-	Func    string
-	Kind    string
-	Props   []string
-	Hyps    []*smt.Term
-	Goal    *smt.Term
-	Pos     string
-	Path    int
-	Defs    []string
-	Expect  string // "unsat" (default) or "sat" (cover)
-	Src     string
-	Structu bool   // discharged structurally (no SMT)
-	StructOK bool
-	StructMsg string
+	Name       string // stable name: pkg.func#kind:label
+	Func       string
+	Kind       string
+	Props      []string
+	Hyps       []*smt.Term
+	Goal       *smt.Term
+	Pos        string
+	Path       int
+	Defs       []string
+	Expect     string // "unsat" (default) or "sat" (cover)
+	Src        string
+	Structu    bool // discharged structurally (no SMT)
+	StructOK   bool
+	StructMsg  string
 	ModelTerms map[string]*smt.Term // named terms to extract from a model
 	Contract   *Contract
 	Clause     spec.Expr
@@ -36,52 +36,52 @@ type Obligation struct {
 }
 
 type loopInfo struct {
-	header  *ssa.BasicBlock
-	body    map[*ssa.BasicBlock]bool
-	ordinal int
-	cells   map[*ssa.Alloc]bool
-	heaps   map[string]bool
-	allHeap bool
-	spec    *spec.LoopSpec
-	allocStores map[string][]*ssa.Alloc // heap -> struct-typed local allocs whose field is stored (keyed havoc)
-	calls   []*ssa.CallCommon             // contract calls whose assigns are resolved at havoc time
-	ptrStores map[string][]ssa.Value      // heap -> pointer values (loads of cells) whose field is stored
+	header        *ssa.BasicBlock
+	body          map[*ssa.BasicBlock]bool
+	ordinal       int
+	cells         map[*ssa.Alloc]bool
+	heaps         map[string]bool
+	allHeap       bool
+	spec          *spec.LoopSpec
+	allocStores   map[string][]*ssa.Alloc // heap -> struct-typed local allocs whose field is stored (keyed havoc)
+	calls         []*ssa.CallCommon       // contract calls whose assigns are resolved at havoc time
+	ptrStores     map[string][]ssa.Value  // heap -> pointer values (loads of cells) whose field is stored
 	keyCheckLater bool                    // havocLoop itself checks that keyed targets do not read heaps the loop writes
-	mapStores []ssa.Value                 // map operands of MapUpdate/delete in the loop (keyed havoc when evaluable at the header)
+	mapStores     []ssa.Value             // map operands of MapUpdate/delete in the loop (keyed havoc when evaluable at the header)
 }
 
 type Exec struct {
-	E         *Engine
-	fn        *ssa.Function
-	c         *Contract
-	obls      []*Obligation
-	wrote     map[string]bool
-	entryHeap map[string]*smt.Term
-	entryPC   []*smt.Term
-	epoch     string
-	loops     map[*ssa.BasicBlock]*loopInfo
-	paths     int
-	maxPaths  int
-	unsup     []string
-	params    map[string]SVal // contract param name -> entry value
-	counters  map[string]int
+	E           *Engine
+	fn          *ssa.Function
+	c           *Contract
+	obls        []*Obligation
+	wrote       map[string]bool
+	entryHeap   map[string]*smt.Term
+	entryPC     []*smt.Term
+	epoch       string
+	loops       map[*ssa.BasicBlock]*loopInfo
+	paths       int
+	maxPaths    int
+	unsup       []string
+	params      map[string]SVal // contract param name -> entry value
+	counters    map[string]int
 	inlineDepth int
 	retHandler  func(s *State, results []Val) // non-nil while inlining
-	curInstr  ssa.Instruction
-	forks     []fork
-	curStop   *ssa.BasicBlock
-	curOut    *[]arrival
-	pdoms     map[*ssa.Function]map[*ssa.BasicBlock]*ssa.BasicBlock
-	noMerge   bool
-	mergeAfter int
-	havocKeep  map[string]bool // write-restricted heap entries the call being havocked cannot change
-	cuts       map[ssa.Instruction]*spec.CutSpec
-	cutDone    map[*spec.CutSpec]bool
-	wholeFn    *loopInfo
-	forkCount  int
-	pkgShort  string
-	isInit    bool
-	returns   int
+	curInstr    ssa.Instruction
+	forks       []fork
+	curStop     *ssa.BasicBlock
+	curOut      *[]arrival
+	pdoms       map[*ssa.Function]map[*ssa.BasicBlock]*ssa.BasicBlock
+	noMerge     bool
+	mergeAfter  int
+	havocKeep   map[string]bool // write-restricted heap entries the call being havocked cannot change
+	cuts        map[ssa.Instruction]*spec.CutSpec
+	cutDone     map[*spec.CutSpec]bool
+	wholeFn     *loopInfo
+	forkCount   int
+	pkgShort    string
+	isInit      bool
+	returns     int
 }
 
 func (x *Exec) unsupported(format string, args ...any) {
@@ -1289,7 +1289,6 @@ func (x *Exec) execFrom(s *State, b *ssa.BasicBlock, start int, prev *ssa.BasicB
 	}
 }
 
-
 func (x *Exec) havocLoop(s *State, li *loopInfo) {
 	tag := fmt.Sprintf("L%d", li.ordinal)
 	for a := range li.cells {
@@ -1455,6 +1454,14 @@ func (x *Exec) headerTerm(s *State, li *loopInfo, v ssa.Value, deps map[string]b
 		if tv, ok := s.cells[a].(TermVal); ok {
 			return tv.T, true
 		}
+	case *ssa.Global:
+		// a package variable the loop does not assign (the caller checks deps)
+		name, _ := x.E.globalHeap(a)
+		if _, isStructT := a.Type().(*types.Pointer).Elem().Underlying().(*types.Struct); isStructT {
+			return nil, false
+		}
+		deps[name] = true
+		return x.Heap(s, name), true
 	case *ssa.FieldAddr:
 		st := a.X.Type().Underlying().(*types.Pointer).Elem()
 		ft := st.Underlying().(*types.Struct).Field(a.Field).Type()
@@ -1678,8 +1685,8 @@ func (x *Exec) frameCheck(s *State, env *SpecEnv) {
 	for _, h := range names {
 		cur := s.heap[h]
 		ent, ok := x.entryHeap[h]
-		if !ok || cur == ent || h == "$alloc" {
-			continue
+		if !ok || cur == ent || h == "$alloc" || strings.HasPrefix(h, "IT$") {
+			continue // IT$: the executor's own bookkeeping of a map iteration, not program state
 		}
 		srt := x.E.HeapSorts[h]
 		var goal *smt.Term
